@@ -286,7 +286,7 @@ func TestC18Race(t *testing.T) {
 		for w := 0; w < nworkers; w++ {
 			select {
 			case <-done[w]:
-			case <-time.After(time.Duration(envInt("VERIF_C18_WATCHDOG_S", 60)) * time.Second):
+			case <-after(time.Duration(envInt("VERIF_C18_WATCHDOG_S", 60)) * time.Second):
 				buf := make([]byte, 64<<20)
 				buf = buf[:runtime.Stack(buf, true)]
 				var keep []string
@@ -350,7 +350,7 @@ func TestC18Targeted(t *testing.T) {
 		go func() { wg.Wait(); close(done) }()
 		select {
 		case <-done:
-		case <-time.After(30 * time.Second):
+		case <-after(30 * time.Second):
 			t.Fatalf("C18-VIOLATION deadlock: targeted workload %q did not terminate within 30 s", name)
 		}
 		RecordCase("C18", "targeted workload: "+name, true, "targeted")
@@ -499,7 +499,7 @@ func TestC18Targeted(t *testing.T) {
 		go func() { wg.Wait(); close(done) }()
 		select {
 		case <-done:
-		case <-time.After(30 * time.Second):
+		case <-after(30 * time.Second):
 			t.Fatalf("C18-VIOLATION deadlock: targeted workload %q did not terminate within 30 s", "channel stream consumed by a replaying goroutine")
 		}
 		p.Close()
